@@ -36,7 +36,7 @@ type Obligation struct {
 	Variant    string   `json:"variant,omitempty"` // GOOS of the build variant that produced it (thorough tier)
 	Shape      string   `json:"shape,omitempty"`   // name-independent address (see shapes.go)
 	ShapeSeed  string   `json:"-"`
-	LooseSeed  string   `json:"-"` // parameter-count-insensitive seed of a recursive cycle
+	LooseSeed  string   `json:"-"`                     // parameter-count-insensitive seed of a recursive cycle
 	LocalSeed  string   `json:"-"`                     // fingerprint of the construct itself (a loop's blocks)
 	ShapeLocal string   `json:"shape_local,omitempty"` // rule ~ function name ~ construct fingerprint ~ ordinal
 	LocalSize  int      `json:"-"`                     // instructions in the construct
